@@ -566,5 +566,363 @@ theorem hypSSP_optimal {F : List P2} (hF : IsFront F) {k : Nat} (hk : 1 ≤ k) (
   intro p hp
   obtain ⟨m, hm, rfl⟩ := List.mem_map.mp hp
   exact List.mem_map.mpr ⟨m, f4 m (List.mem_eraseDups.mpr hm), rfl⟩
+/-! ### L5: the operator.  (a) sorting with the intended comparator -/
+
+/-- lexicographic `≤` on the key `(f1, f2)`: the order `ptLtFixed` sorts by -/
+def keyLe (a b : P2) : Prop := a.f1 < b.f1 ∨ (a.f1 = b.f1 ∧ a.f2 ≤ b.f2)
+
+theorem ptLtFixed_true {a b : P2} : ptLtFixed a b = true ↔ a.f1 < b.f1 ∨ (a.f1 = b.f1 ∧ a.f2 < b.f2) := by
+  unfold ptLtFixed
+  split
+  · simp_all
+  · split
+    · constructor
+      · intro h; simp at h
+      · intro h; omega
+    · simp only [decide_eq_true_eq]
+      constructor
+      · intro h; right; exact ⟨by omega, h⟩
+      · intro h; omega
+
+theorem keyLe_of_lt {a b : P2} (h : ptLtFixed a b = true) : keyLe a b := by
+  rcases ptLtFixed_true.mp h with h | h
+  · exact Or.inl h
+  · exact Or.inr ⟨h.1, by omega⟩
+
+theorem keyLe_of_not_lt {a b : P2} (h : ¬ ptLtFixed a b = true) : keyLe b a := by
+  rw [ptLtFixed_true] at h
+  unfold keyLe; omega
+
+theorem keyLe_trans {a b c : P2} (h1 : keyLe a b) (h2 : keyLe b c) : keyLe a c := by
+  unfold keyLe at *; omega
+
+theorem linInsert_spec (v : P2) : ∀ (rl : List P2), rl.Pairwise (fun a b => keyLe b a) →
+    (linInsert ptLtFixed v rl).Pairwise (fun a b => keyLe b a) ∧ (linInsert ptLtFixed v rl).Perm (v :: rl)
+  | [], _ => by simp [linInsert]
+  | e :: es, h => by
+    have h' := List.pairwise_cons.mp h
+    rw [linInsert]
+    split
+    · rename_i hlt
+      obtain ⟨ih1, ih2⟩ := linInsert_spec v es h'.2
+      refine ⟨List.pairwise_cons.mpr ⟨?_, ih1⟩, ?_⟩
+      · intro q hq
+        rcases List.mem_cons.mp (ih2.mem_iff.mp hq) with rfl | hq
+        · exact keyLe_of_lt hlt
+        · exact h'.1 q hq
+      · exact (List.Perm.cons e ih2).trans (List.Perm.swap v e es)
+    · rename_i hlt
+      refine ⟨List.pairwise_cons.mpr ⟨?_, h⟩, List.Perm.refl _⟩
+      intro q hq
+      have hev := keyLe_of_not_lt hlt
+      rcases List.mem_cons.mp hq with rfl | hq
+      · exact hev
+      · exact keyLe_trans (h'.1 q hq) hev
+
+theorem insStep_spec (acc : List P2) (v : P2) (h : acc.Pairwise keyLe) :
+    (insStep ptLtFixed acc v).Pairwise keyLe ∧ (insStep ptLtFixed acc v).Perm (v :: acc) := by
+  match acc, h with
+  | [], _ => simp [insStep]
+  | first :: rest, h =>
+    have h' := List.pairwise_cons.mp h
+    rw [insStep]
+    split
+    · rename_i hlt
+      refine ⟨List.pairwise_cons.mpr ⟨?_, h⟩, List.Perm.refl _⟩
+      intro q hq
+      have hvf := keyLe_of_lt hlt
+      rcases List.mem_cons.mp hq with rfl | hq
+      · exact hvf
+      · exact keyLe_trans hvf (h'.1 q hq)
+    · obtain ⟨h1, h2⟩ := linInsert_spec v (first :: rest).reverse (List.pairwise_reverse.mpr h)
+      refine ⟨List.pairwise_reverse.mpr h1, ?_⟩
+      exact (List.reverse_perm _).trans (h2.trans (List.Perm.cons v (List.reverse_perm _)))
+
+theorem insSort_spec (l : List P2) : (insSort ptLtFixed l).Pairwise keyLe ∧ (insSort ptLtFixed l).Perm l := by
+  unfold insSort
+  have key : ∀ (l acc : List P2), acc.Pairwise keyLe →
+      (l.foldl (insStep ptLtFixed) acc).Pairwise keyLe ∧ (l.foldl (insStep ptLtFixed) acc).Perm (acc ++ l) := by
+    intro l
+    induction l with
+    | nil => intro acc h; simpa using h
+    | cons v l ih =>
+      intro acc h
+      obtain ⟨s1, s2⟩ := insStep_spec acc v h
+      obtain ⟨i1, i2⟩ := ih _ s1
+      refine ⟨i1, i2.trans ?_⟩
+      have : (v :: acc ++ l).Perm (acc ++ v :: l) := (List.perm_middle).symm
+      exact (List.Perm.append_right l s2).trans this
+  simpa using key l [] List.Pairwise.nil
+
+/-! (b) `uniqueFront` -/
+
+theorem uniqueGo_spec : ∀ (rest : List P2) (last : P2), (∀ y ∈ rest, keyLe last y) → rest.Pairwise keyLe →
+    (uniqueGo last rest).Sublist rest ∧
+    (last :: uniqueGo last rest).Pairwise (fun p q => p.f1 < q.f1 ∧ q.f2 < p.f2) ∧
+    ∀ p ∈ rest, ∃ q ∈ last :: uniqueGo last rest, q.f1 ≤ p.f1 ∧ q.f2 ≤ p.f2
+  | [], last, _, _ => by simp [uniqueGo]
+  | y :: rest, last, hl, hs => by
+    have hs' := List.pairwise_cons.mp hs
+    have hly := hl y (by simp)
+    rw [uniqueGo]
+    split
+    · rename_i hge
+      obtain ⟨i1, i2, i3⟩ := uniqueGo_spec rest last (fun z hz => hl z (List.mem_cons_of_mem _ hz)) hs'.2
+      refine ⟨i1.cons _, i2, ?_⟩
+      intro p hp
+      rcases List.mem_cons.mp hp with rfl | hp
+      · refine ⟨last, by simp, ?_⟩
+        unfold keyLe at hly; omega
+      · exact i3 p hp
+    · rename_i hge
+      obtain ⟨i1, i2, i3⟩ := uniqueGo_spec rest y hs'.1 hs'.2
+      have hi2 := List.pairwise_cons.mp i2
+      have hlt : last.f1 < y.f1 ∧ y.f2 < last.f2 := by unfold keyLe at hly; omega
+      refine ⟨i1.cons_cons _, List.pairwise_cons.mpr ⟨?_, i2⟩, ?_⟩
+      · intro q hq
+        rcases List.mem_cons.mp hq with rfl | hq
+        · exact hlt
+        · have := hi2.1 q hq; omega
+      · intro p hp
+        rcases List.mem_cons.mp hp with rfl | hp
+        · exact ⟨p, by simp, Int.le_refl _, Int.le_refl _⟩
+        · obtain ⟨q, hq, h⟩ := i3 p hp
+          exact ⟨q, List.mem_cons_of_mem _ hq, h⟩
+
+theorem uniqueFront_spec (L : List P2) (hs : L.Pairwise keyLe) :
+    (uniqueFront L).Sublist L ∧ (uniqueFront L).Pairwise (fun p q => p.f1 < q.f1 ∧ q.f2 < p.f2) ∧
+    ∀ p ∈ L, ∃ q ∈ uniqueFront L, q.f1 ≤ p.f1 ∧ q.f2 ≤ p.f2 := by
+  match L, hs with
+  | [], _ => simp [uniqueFront]
+  | x :: rest, hs =>
+    have hs' := List.pairwise_cons.mp hs
+    obtain ⟨i1, i2, i3⟩ := uniqueGo_spec rest x hs'.1 hs'.2
+    rw [uniqueFront]
+    refine ⟨i1.cons_cons _, i2, ?_⟩
+    intro p hp
+    rcases List.mem_cons.mp hp with rfl | hp
+    · exact ⟨p, by simp, Int.le_refl _, Int.le_refl _⟩
+    · exact i3 p hp
+/-! (c) translation invariance of the 2-D hypervolume -/
+
+/-- the change of coordinates of `createFront`: the reference point becomes `(0,0)` -/
+def shift (r p : Pt) : Pt := [px p - px r, py p - py r]
+
+theorem px_shift (r p : Pt) : px (shift r p) = px p - px r := by simp [shift, px]
+theorem py_shift (r p : Pt) : py (shift r p) = py p - py r := by simp [shift, py]
+
+theorem sweep2d_shift (r : Pt) : ∀ (L : List Pt) (last : Int),
+    sweep2d 0 (last - py r) (L.map (shift r)) = sweep2d (px r) last L
+  | [], _ => by simp [sweep2d]
+  | p :: rest, last => by
+    simp only [List.map_cons, sweep2d, px_shift, py_shift]
+    have e : last - py r - (py p - py r) = last - py p := by omega
+    rw [e, sweep2d_shift r rest (py p), sweep2d_shift r rest last]
+    split
+    · ring
+    · rfl
+
+theorem hv2dSorted_shift (r : Pt) (L : List Pt) : hv2dSorted (L.map (shift r)) [0, 0] = hv2dSorted L r := by
+  match L with
+  | [] => simp [hv2dSorted]
+  | p :: rest =>
+    have e0 : px ([0, 0] : Pt) = 0 := rfl
+    have e1 : py ([0, 0] : Pt) = 0 := rfl
+    simp only [List.map_cons, hv2dSorted, px_shift, py_shift, e0, e1]
+    rw [sweep2d_shift]
+    ring
+
+theorem leAll_shift {r p : Pt} (hp : p.length = 2) (hr : r.length = 2) (h : leAll p r = true) :
+    leAll (shift r p) [0, 0] = true := by
+  have := (leAll_2d hp hr).mp h
+  simp only [shift, leAll, Bool.and_true, Bool.and_eq_true, decide_eq_true_eq]
+  omega
+
+/-- the hypervolume does not change when points and reference point are translated by `−r` -/
+theorem hvSpec_shift {S : List Pt} {r : Pt} (hS : ∀ p ∈ S, p.length = 2) (hr : r.length = 2)
+    (hle : ∀ p ∈ S, leAll p r = true) : hvSpec (S.map (shift r)) [0, 0] = hvSpec S r := by
+  have hperm : (sortByKey S).Perm S := List.mergeSort_perm S _
+  have h1 : (hvSpec S r : Int) = hv2dSorted (sortByKey S) r := (hv2d_eq_spec hS hr hle).symm
+  have h2 : hv2dSorted ((sortByKey S).map (shift r)) [0, 0]
+      = (hvSpec ((sortByKey S).map (shift r)) [0, 0] : Int) := by
+    apply hv2dSorted_eq_spec
+    · rw [List.pairwise_map]
+      exact (pairwise_sortByKey S).imp (by intro a b h; rw [px_shift, px_shift]; omega)
+    · intro p hp
+      obtain ⟨q, _, rfl⟩ := List.mem_map.mp hp
+      rfl
+    · rfl
+    · intro p hp
+      obtain ⟨q, hq, rfl⟩ := List.mem_map.mp hp
+      have hq' := hperm.mem_iff.mp hq
+      exact leAll_shift (hS q hq') hr (hle q hq')
+  rw [hv2dSorted_shift, ← h1, hvSpec_perm (hperm.map _)] at h2
+  exact_mod_cast h2.symm
+
+/-! (d) the front built by `createFront` -/
+
+def mkP (r : Pt) (e : Pt × Nat) : P2 := { f1 := px e.1 - px r, f2 := py e.1 - py r, idx := e.2 }
+
+theorem createFrontWith_eq (lt : P2 → P2 → Bool) (S : List Pt) (r : Pt) :
+    createFrontWith lt S r = uniqueFront (insSort lt (S.zipIdx.map (mkP r))) := by
+  unfold createFrontWith
+  congr
+
+/-- a point of the front comes from the input point with its index -/
+def Good (S : List Pt) (r : Pt) (q : P2) : Prop := ∃ p, S[q.idx]? = some p ∧ q.pt = shift r p
+
+theorem front_facts {S : List Pt} {r : Pt} (hS : ∀ p ∈ S, p.length = 2) (hr : r.length = 2)
+    (hle : ∀ p ∈ S, leAll p r = true) :
+    let F := createFrontWith ptLtFixed S r
+    IsFront F ∧ (∀ q ∈ F, Good S r q) ∧ (F.map (·.idx)).Nodup ∧
+    ∀ p ∈ S, ∃ q ∈ F, leAll q.pt (shift r p) = true := by
+  intro F
+  have hF : F = uniqueFront (insSort ptLtFixed (S.zipIdx.map (mkP r))) := createFrontWith_eq _ S r
+  obtain ⟨s1, s2⟩ := insSort_spec (S.zipIdx.map (mkP r))
+  obtain ⟨u1, u2, u3⟩ := uniqueFront_spec _ s1
+  rw [← hF] at u1 u2 u3
+  have hgood0 : ∀ q ∈ S.zipIdx.map (mkP r), Good S r q := by
+    intro q hq
+    obtain ⟨e, he, rfl⟩ := List.mem_map.mp hq
+    exact ⟨e.1, List.mem_zipIdx_iff_getElem?.mp he, rfl⟩
+  have hgood : ∀ q ∈ F, Good S r q := fun q hq => hgood0 q (s2.mem_iff.mp (u1.subset hq))
+  refine ⟨⟨u2, ?_⟩, hgood, ?_, ?_⟩
+  · intro q hq
+    obtain ⟨p, hp, hqp⟩ := hgood q hq
+    have hpS : p ∈ S := List.mem_of_getElem? hp
+    have := (leAll_2d (hS p hpS) hr).mp (hle p hpS)
+    simp only [P2.pt, shift, List.cons.injEq, and_true] at hqp
+    omega
+  · have h0 : ((S.zipIdx.map (mkP r)).map (·.idx)).Nodup := by
+      rw [List.map_map]
+      have : ((fun x : P2 => x.idx) ∘ mkP r) = Prod.snd := by funext e; rfl
+      rw [this, List.zipIdx_map_snd]
+      exact List.nodup_range'
+    exact ((s2.map _).nodup_iff.mpr h0).sublist (u1.map _)
+  · intro p hp
+    obtain ⟨i, hi, rfl⟩ := List.mem_iff_getElem.mp hp
+    have hmem : mkP r (S[i], i) ∈ insSort ptLtFixed (S.zipIdx.map (mkP r)) := by
+      apply s2.mem_iff.mpr
+      exact List.mem_map.mpr ⟨(S[i], i), List.mem_zipIdx_iff_getElem?.mpr (by simp [hi]), rfl⟩
+    obtain ⟨q, hq, h1, h2⟩ := u3 _ hmem
+    refine ⟨q, hq, ?_⟩
+    simp only [P2.pt, shift, leAll, Bool.and_true, Bool.and_eq_true, decide_eq_true_eq]
+    exact ⟨h1, h2⟩
+/-! (e) the flags -/
+
+theorem mem_flagged {S : List Pt} {sel : List Nat} {i : Nat} {p : Pt} (h : S[i]? = some p) (hi : i ∈ sel) :
+    p ∈ ((S.zip ((List.range S.length).map fun i => sel.contains i)).filter (·.2)).map (·.1) := by
+  have hil : i < S.length := (List.getElem?_eq_some_iff.mp h).1
+  refine List.mem_map.mpr ⟨(p, true), List.mem_filter.mpr ⟨?_, rfl⟩, rfl⟩
+  apply List.mem_iff_getElem?.mpr
+  refine ⟨i, ?_⟩
+  rw [List.getElem?_zip_eq_some]
+  refine ⟨h, ?_⟩
+  simp [hil, hi]
+
+theorem flagged_subset {S : List Pt} {fl : List Bool} {p : Pt}
+    (h : p ∈ ((S.zip fl).filter (·.2)).map (·.1)) : p ∈ S := by
+  obtain ⟨e, he, rfl⟩ := List.mem_map.mp h
+  exact (List.of_mem_zip (List.mem_filter.mp he).1).1
+
+theorem count_flags {n : Nat} {sel : List Nat} (hnd : sel.Nodup) (hlt : ∀ i ∈ sel, i < n) :
+    ((List.range n).map fun i => sel.contains i).count true = sel.length := by
+  rw [List.count_eq_countP, List.countP_map, List.countP_eq_length_filter]
+  apply List.Perm.length_eq
+  apply (List.perm_ext_iff_of_nodup (List.nodup_range.sublist List.filter_sublist) hnd).mpr
+  intro a
+  simp only [List.mem_filter, List.mem_range, Function.comp, List.contains_eq_mem, beq_true,
+    decide_eq_true_eq]
+  exact ⟨fun h => h.2, fun h => ⟨hlt a h, h⟩⟩
+
+theorem exists_dominators {F : List P2} {r : Pt} : ∀ (T : List Pt),
+    (∀ p ∈ T, ∃ q ∈ F, leAll q.pt (shift r p) = true) →
+    ∃ D : List P2, D.length = T.length ∧ (∀ q ∈ D, q ∈ F) ∧ ∀ p ∈ T, ∃ q ∈ D, leAll q.pt (shift r p) = true
+  | [], _ => ⟨[], rfl, by simp, by simp⟩
+  | p :: T, h => by
+    obtain ⟨D, d1, d2, d3⟩ := exists_dominators T (fun p' hp' => h p' (List.mem_cons_of_mem _ hp'))
+    obtain ⟨q, hq, hqp⟩ := h p (by simp)
+    refine ⟨q :: D, by simp [d1], ?_, ?_⟩
+    · intro q' hq'
+      rcases List.mem_cons.mp hq' with rfl | hq'
+      · exact hq
+      · exact d2 q' hq'
+    · intro p' hp'
+      rcases List.mem_cons.mp hp' with rfl | hp'
+      · exact ⟨q, by simp, hqp⟩
+      · obtain ⟨q', hq', h'⟩ := d3 p' hp'
+        exact ⟨q', List.mem_cons_of_mem _ hq', h'⟩
+
+/-- the points selected by the operator run with comparator `lt` -/
+def selectedWith (lt : P2 → P2 → Bool) (S : List Pt) (k : Nat) (r : Pt) : List Pt :=
+  ((S.zip (selectWith lt S k r)).filter (·.2)).map (·.1)
+
+/-- **L5** the operator with the intended comparator `ptLtFixed`: if all points are two-dimensional and weakly
+dominate the reference point and `1 ≤ k ≤ |front|`, then exactly `k` flags are set, and no sub-list of the input
+with at most `k` points has a larger hypervolume than the selected points. -/
+theorem select_optimal {S : List Pt} {r : Pt} {k : Nat} (hS : ∀ p ∈ S, p.length = 2) (hr : r.length = 2)
+    (hle : ∀ p ∈ S, leAll p r = true) (hk : 1 ≤ k) (hkF : k ≤ (createFrontWith ptLtFixed S r).length) :
+    (selectWith ptLtFixed S k r).length = S.length ∧ (selectWith ptLtFixed S k r).count true = k ∧
+    ∀ T : List Pt, T.Sublist S → T.length ≤ k →
+      hvSpec T r ≤ hvSpec (selectedWith ptLtFixed S k r) r := by
+  obtain ⟨hF, hgood, hidx, hdom⟩ := front_facts hS hr hle
+  unfold selectedWith selectWith
+  simp only at hF hgood hidx hdom ⊢
+  generalize createFrontWith ptLtFixed S r = F at *
+  obtain ⟨o1, o2, o3, o4⟩ := hypSSP_optimal hF hk hkF
+  have hgetD : ∀ j, j < F.length → ∀ d : P2, F.getD j d = F[j]'‹_› := by
+    intro j hj d
+    simp [List.getD_eq_getElem?_getD, List.getElem?_eq_getElem hj]
+  generalize hsel : ((hypSSP F k).map fun i => (F.getD i ⟨0, 0, S.length⟩).idx) = sel
+  have hselmem : ∀ j (hj : j ∈ hypSSP F k), (F[j]'(o3 j hj)).idx ∈ sel := by
+    intro j hj
+    rw [← hsel]
+    exact List.mem_map.mpr ⟨j, hj, by rw [hgetD j (o3 j hj)]⟩
+  have hsel_lt : ∀ i ∈ sel, i < S.length := by
+    intro i hi
+    rw [← hsel] at hi
+    obtain ⟨j, hj, rfl⟩ := List.mem_map.mp hi
+    rw [hgetD j (o3 j hj)]
+    obtain ⟨p, hp, _⟩ := hgood _ (List.getElem_mem (o3 j hj))
+    exact (List.getElem?_eq_some_iff.mp hp).1
+  have hsel_nd : sel.Nodup := by
+    rw [← hsel, List.Nodup, List.pairwise_map]
+    refine List.Pairwise.imp_of_mem ?_ o1
+    intro a b ha hb hab e
+    rw [hgetD a (o3 a ha), hgetD b (o3 b hb)] at e
+    have e' : (F.map (·.idx))[a]'(by simpa using o3 a ha) = (F.map (·.idx))[b]'(by simpa using o3 b hb) := by
+      simpa using e
+    exact hab ((hidx.getElem_inj_iff).mp e')
+  refine ⟨by simp, ?_, ?_⟩
+  · rw [count_flags hsel_nd hsel_lt, ← hsel, List.length_map, o2]
+  · intro T hT hTk
+    generalize hsp : ((S.zip ((List.range S.length).map fun i => sel.contains i)).filter (·.2)).map (·.1) = sp
+    have hspS : ∀ p ∈ sp, p ∈ S := by intro p hp; rw [← hsp] at hp; exact flagged_subset hp
+    have hTS : ∀ p ∈ T, p ∈ S := fun p hp => hT.subset hp
+    rw [← hvSpec_shift (fun p hp => hS p (hTS p hp)) hr (fun p hp => hle p (hTS p hp)),
+      ← hvSpec_shift (fun p hp => hS p (hspS p hp)) hr (fun p hp => hle p (hspS p hp))]
+    obtain ⟨D, d1, d2, d3⟩ := exists_dominators (F := F) (r := r) T (fun p hp => hdom p (hTS p hp))
+    have hT'sub : (F.filter fun q => decide (q ∈ D)).Sublist F := List.filter_sublist
+    have hFnd : F.Nodup := hF.mono.imp (by intro a b h e; subst e; omega)
+    have hT'len : (F.filter fun q => decide (q ∈ D)).length ≤ k := by
+      refine Nat.le_trans (List.Nodup.length_le_of_subset (hFnd.sublist hT'sub) ?_) (by omega)
+      intro q hq
+      simpa using (List.mem_filter.mp hq).2
+    refine Nat.le_trans ?_ (Nat.le_trans (o4 _ hT'sub hT'len) ?_)
+    · apply hvSpec_mono (m := 2) rfl (by simp [P2.pt])
+      intro p hp
+      obtain ⟨p0, hp0, rfl⟩ := List.mem_map.mp hp
+      obtain ⟨q, hq, hqp⟩ := d3 p0 hp0
+      exact ⟨q.pt, List.mem_map.mpr ⟨q, List.mem_filter.mpr ⟨d2 q hq, by simpa using hq⟩, rfl⟩, hqp⟩
+    · apply hvSpec_mono_subset (m := 2) rfl (by simp [shift])
+      intro p hp
+      obtain ⟨j, hj, rfl⟩ := List.mem_map.mp hp
+      have hjl := o3 j hj
+      obtain ⟨p0, hp0, hpt⟩ := hgood _ (List.getElem_mem hjl)
+      have : ptOf F j = shift r p0 := by rw [← hpt, ptOf, hgetD j hjl]
+      rw [this]
+      refine List.mem_map.mpr ⟨p0, ?_, rfl⟩
+      rw [← hsp]
+      exact mem_flagged hp0 (hselmem j hj)
 
 end SharkVerif.SSP
